@@ -179,6 +179,9 @@ static int do_write(Endpoint *ep, int dir, uint64_t n, uint64_t wchunk)
  * is compared with the position-coded stream the peer's application wrote.
  * Error returns are tolerated a few times (the caller may be behind a
  * tampering proxy); the scenarios decide what an error means. */
+static int do_write(Endpoint *ep, int dir, uint64_t n, uint64_t wchunk);
+static struct { int on; uint64_t every, size, base, sent; } g_ack[2 * NET_MAX_CONN];
+
 static int read_until(Endpoint *ep, int dir, uint64_t target, uint64_t rbuf_max, int max_calls)
 {
 	uint8_t *buf = g_iobuf[ep - g_ep];
@@ -222,6 +225,17 @@ static int read_until(Endpoint *ep, int dir, uint64_t target, uint64_t rbuf_max,
 		ep->got[dir] += got;
 		if (ep->recv_errs) ep->got_after_err += got;
 		sim_trace(EV_APP, -(int64_t)got, dir);
+		/* acknowledged rounds: write back right away, even if the record is only partly consumed */
+		{
+			int slot = (int)(ep - g_ep);
+			while (g_ack[slot].on && (ep->got[dir] - g_ack[slot].base) / g_ack[slot].every > g_ack[slot].sent) {
+				g_ack[slot].sent++;
+				uint8_t save[GUARD];
+				memcpy(save, buf, GUARD);
+				if (do_write(ep, 1 - dir, g_ack[slot].size, 0) != 0) return -1;
+				memcpy(buf, save, GUARD);
+			}
+		}
 	}
 	return 0;
 }
@@ -264,6 +278,21 @@ void ep_task(void *arg)
 	int broken = 0;
 	for (int i = 0; i < p->nrounds && !broken; i++) {
 		const Round *r = &p->rounds[i];
+		if (r->mode == RM_C2S_ACKED || r->mode == RM_S2C_ACKED) {
+			int d = r->mode == RM_C2S_ACKED ? DIR_C2S : DIR_S2C;
+			uint64_t every = (uint64_t)(r->ack_every > 0 ? r->ack_every : 1), size = (uint64_t)(r->ack_size > 0 ? r->ack_size : 1);
+			uint64_t nacks = (uint64_t)r->n[d] / every;
+			if (me_out == d) {          /* data writer: write everything, then collect the acknowledgements */
+				if (do_write(ep, d, (uint64_t)r->n[d], (uint64_t)r->wchunk[d]) != 0) broken = 1;
+				else if (nacks && do_read(ep, 1 - d, nacks * size, (uint64_t)r->rbuf_max[1 - d]) != 0) broken = 1;
+			} else {                   /* data reader: acknowledge while reading */
+				int slot = (int)(ep - g_ep);
+				g_ack[slot].on = 1; g_ack[slot].every = every; g_ack[slot].size = size; g_ack[slot].base = ep->got[d]; g_ack[slot].sent = 0;
+				if (do_read(ep, d, (uint64_t)r->n[d], (uint64_t)r->rbuf_max[d]) != 0) broken = 1;
+				g_ack[slot].on = 0;
+			}
+			continue;
+		}
 		int writes = (r->mode == RM_DUPLEX) || (r->mode == RM_C2S && ep->side == 0) || (r->mode == RM_S2C && ep->side == 1);
 		int reads = (r->mode == RM_DUPLEX) || (r->mode == RM_C2S && ep->side == 1) || (r->mode == RM_S2C && ep->side == 0);
 		if (writes && r->n[me_out] > 0)
